@@ -223,10 +223,25 @@ class CodePanic(Exception):
         self.where = where
 
 
-def run_driver(args, timeout=3600):
-    t = time.time()
+NETNS_SH = 'ip link set lo up && echo "4096 4096 4096" > /proc/sys/net/ipv4/tcp_wmem && exec "$@"'
+
+
+def netns_available():
+    """A private network namespace (own loopback, own tcp_wmem) needs CAP_SYS_ADMIN; the checks run as root in this sandbox."""
     try:
-        r = subprocess.run([QV] + [str(a) for a in args], capture_output=True, text=True, timeout=timeout)
+        r = subprocess.run(["unshare", "-n", "sh", "-c", NETNS_SH, "sh", "true"], capture_output=True, timeout=20)
+        return r.returncode == 0
+    except Exception:
+        return False
+
+
+def run_driver(args, timeout=3600, netns=False):
+    t = time.time()
+    # netns: the driver (server and clients, all in one process) gets its own loopback on which a TCP socket's send buffer
+    # is fixed at 4 KiB, so a response larger than that is only partly taken by a non-blocking write while the client stalls
+    prefix = ["unshare", "-n", "sh", "-c", NETNS_SH, "sh"] if netns else []
+    try:
+        r = subprocess.run(prefix + [QV] + [str(a) for a in args], capture_output=True, text=True, timeout=timeout)
     except subprocess.TimeoutExpired:
         raise ToolError(f"driver {args} timed out")
     if r.returncode == 3 and "DRIVER-PANIC at " in r.stderr:
@@ -722,9 +737,9 @@ def negative_control(res, name, path, module, session_start, deque=False, env=No
                     f"the specification does not bind what is logged: {tried}")
 
 
-def trace_stage(res, driver_args, module, name, tags, session_start=None, nshards=NSHARDS, deque=False, env=None, driver_tail=()):
+def trace_stage(res, driver_args, module, name, tags, session_start=None, nshards=NSHARDS, deque=False, env=None, driver_tail=(), netns=False):
     path = tr(f"{res.pid}-{name.replace('/', '-')}-{res.seed}.ndjson")
-    run_driver(driver_args + [path] + list(driver_tail))
+    run_driver(driver_args + [path] + list(driver_tail), netns=netns)
     v = validate_trace(path, module + ".tla", module + ".cfg", nshards=nshards, session_start=session_start, deque=deque, env=env)
     res.add_trace(name, v, path, own_tags=tags)
     if res.tier == "thorough" or os.environ.get("VERIF_NEGCTL"):
@@ -973,11 +988,18 @@ def check_C30(res):
     for cfg in ["MCF_a", "MCF_b", "MCF_c"]:
         run_mc(res, f"MC_Framing/{cfg}", "MCF.tla", cfg + ".cfg", workers=2, must_cover=(cfg == "MCF_a"))   # in MCF_b and MCF_c the server closes before EOF
     run_mc(res, "MC_Framing/mutant (leftover not moved to the front)", "MCF.tla", "MCF_mutant.cfg", workers=2, expect_violation="any")
+    small = netns_available()
     trace_stage(res, ["io", res.seed, 25 if q else 1500], "TraceIo", "io", ["C30"], session_start=None)
+    if small:
+        # the same driver on a private loopback whose TCP send buffers are fixed at 4 KiB: with a client that does not read,
+        # the server's socket takes only part of a 12 KiB response per write (a short write on the non-blocking Tokio socket)
+        trace_stage(res, ["io", res.seed + 7, 4 if q else 120], "TraceIo", "io/small-send-buffer", ["C30"], session_start=None, netns=True)
+    else:
+        res.assumptions.append("unshare -n is not available here: the small-send-buffer run was skipped (short writes are then not provoked)")
     res.assumptions += ["requests are sent well within the 5 s read timeout of the providers",
                         "the per-request oracle is the in-process handle_message result on the same server (validated against Server.tla by C01-C10)",
                         "if the kernel resets a connection that the server closed while the client was still sending (a client read or write fails), only a prefix of the expected octets is required; pipelined batches are never affected"]
-    return "(M) the TCP read loop (buffer, n_read, cached length, leftover, close after a response-less message) against the abstract length-prefixed stream for every segmentation into reads, with liveness; (V) both providers in-process on loopback: blocking with (0 base workers, no linger, 1 UDP worker), (2, 50 ms, 2), (1, 0, 3) and Tokio; per configuration n connections carrying 1-7 requests (valid, FORMERR, NOTIMP, EDNS, response-less: QR set / shorter than a header / empty / two questions), written in one piece (pipelined) or in segments of 1-4000 octets with 0-11 ms pauses; n UDP exchanges from fresh sockets; everything returned, a 40 ms window for surplus octets/datagrams, close detection"
+    return "(M) the TCP read loop (buffer, n_read, cached length, leftover, close after a response-less message) against the abstract length-prefixed stream for every segmentation into reads, with liveness; (V) both providers in-process on loopback: blocking with (0 base workers, no linger, 1 UDP worker), (2, 50 ms, 2), (1, 0, 3) and Tokio; per configuration n connections carrying 1-7 requests (valid, FORMERR, NOTIMP, EDNS, response-less: QR set / shorter than a header / empty / two questions), written in one piece (pipelined) or in segments of 1-4000 octets with 0-11 ms pauses; n UDP exchanges from fresh sockets; everything returned, a 40 ms window for surplus octets/datagrams, close detection; the driver runs a second time on a private loopback (network namespace) whose TCP send buffers are fixed at 4 KiB, so responses are taken by the socket in pieces and a stalled reader provokes short writes"
 
 
 def check_C31(res):
